@@ -108,6 +108,12 @@ EXTRA = {
                          '<xs:element name="r"><xs:complexType><xs:sequence><xs:element name="i" type="B" block="extension" maxOccurs="unbounded"/></xs:sequence></xs:complexType></xs:element></xs:schema>',
                          ['<r xmlns:xsi="http://www.w3.org/2001/XMLSchema-instance"><i xsi:type="E1"><a>x</a></i></r>', '<r xmlns:xsi="http://www.w3.org/2001/XMLSchema-instance"><i><a>x</a></i><i xsi:type="E1"><a>x</a></i><i xsi:type="E1"><a>y</a></i></r>',
                           '<r><i><a>x</a></i></r>']),
+    # a root without a declaration, typed through xsi:type (every entry point builds a stand-in declaration for it), with and without xsi:nil
+    'undeclared-root-xsi-type': ('<xs:schema {XS}><xs:complexType name="T"><xs:sequence><xs:element name="a" type="xs:int" minOccurs="0"/></xs:sequence><xs:attribute name="k" type="xs:int"/></xs:complexType>'
+                                 '<xs:element name="r" type="T" nillable="true"/><xs:element name="s" type="T"/></xs:schema>',
+                                 ['<other xmlns:xsi="http://www.w3.org/2001/XMLSchema-instance" xsi:type="T"><a>1</a></other>', '<other xmlns:xsi="http://www.w3.org/2001/XMLSchema-instance" xsi:type="T" xsi:nil="true"/>', '<other xmlns:xsi="http://www.w3.org/2001/XMLSchema-instance" xsi:type="T" xsi:nil="true" k="1"/>', '<other xmlns:xsi="http://www.w3.org/2001/XMLSchema-instance" xsi:type="T" xsi:nil="false"><a>1</a></other>',
+                                  '<other xmlns:xsi="http://www.w3.org/2001/XMLSchema-instance" xsi:type="T"><a>x</a></other>', '<other xmlns:xsi="http://www.w3.org/2001/XMLSchema-instance" xsi:nil="true"/>', '<r xmlns:xsi="http://www.w3.org/2001/XMLSchema-instance" xsi:nil="true"/>', '<r xmlns:xsi="http://www.w3.org/2001/XMLSchema-instance" xsi:nil="true"><a>1</a></r>', '<s xmlns:xsi="http://www.w3.org/2001/XMLSchema-instance" xsi:nil="true"/>', '<s xmlns:xsi="http://www.w3.org/2001/XMLSchema-instance" xsi:type="T" xsi:nil="false"/>',
+                                  '<other xmlns:xsi="http://www.w3.org/2001/XMLSchema-instance" xsi:type="xs:int" xmlns:xs="http://www.w3.org/2001/XMLSchema" xsi:nil="true"/>', '<other xmlns:xsi="http://www.w3.org/2001/XMLSchema-instance" xsi:type="xs:int" xmlns:xs="http://www.w3.org/2001/XMLSchema">5</other>']),
     'date-list-fixed': ('<xs:schema {XS}><xs:simpleType name="DL"><xs:list itemType="xs:date"/></xs:simpleType><xs:element name="e" type="DL" fixed="2000-01-01Z 2000-01-02Z"/></xs:schema>',
                         ['<e>2000-01-01Z 2000-01-02Z</e>', '<e>2000-01-01Z   2000-01-02Z</e>', '<e>2000-01-01Z</e>', '<e/>']),
     'string-fixed': ('<xs:schema {XS}><xs:element name="r"><xs:complexType><xs:sequence><xs:element name="k" type="xs:token" fixed="article"/><xs:element name="u" type="xs:anyURI" fixed="urn:x" minOccurs="0"/></xs:sequence></xs:complexType></xs:element></xs:schema>',
@@ -214,6 +220,9 @@ def run(tier, seed, open_findings):
         for r in eres:
             if not r: continue
             if r['name'] in ('date-list-enum', 'decimal-list-enum', 'date-list-fixed') and r['problem'].startswith('entry points') and K in open_findings and r['verdicts'].get('is_valid') is True: ek[K] = ek.get(K, 0) + 1; continue
+            K2 = 'C04-lazy-chunks-below-an-undeclared-xsi-type-root-are-not-validated'
+            if r['name'] == 'undeclared-root-xsi-type' and r['problem'].startswith('entry points') and K2 in open_findings and r['doc'].startswith('<other ') and '<a>x</a>' in r['doc'] \
+                    and all(v is (k.startswith('lazy') or k.endswith('lazy')) for k, v in r['verdicts'].items()): ek[K2] = ek.get(K2, 0) + 1; continue
             ef.append(dict(case=dict(extra=r['name'], ver=r['ver'], doc=r['doc']), observed=dict(verdicts=r['verdicts'], problem=r['problem']), required='one verdict on every entry point'))
         out.append(result('C04.verdict_agreement_small_schemas', f'{len(ejobs)} (schema, document, class) over {len(EXTRA)} small schemas (mixed content with a fixed value, enumerations on lists of dates / decimals, an IDREF default, a blocked xsi:type, a fixed decimal) x 6 entry points',
                           len(ejobs) * 6, ef, exhaustive=True, known=ek, samples=[dict(extra='mixed-fixed', doc='<m> </m>')]))
